@@ -190,7 +190,11 @@ def _c10(ctx):
     # binary array I/O lives in Utility.hpp but is not text parsing (it is decided under C13)
     from .rules import tool
     ctx.exclude_q = {'GeographicLib::Utility::readarray', 'GeographicLib::Utility::writearray'}
-    return _exc_rules(ctx, 'C10') + [tool.rule_TOOL(ctx), tool.rule_S1(ctx), _w1(ctx, 'C10', 8)]
+    from .rules import rewrite
+    rw, nchain, ncalls = rewrite.rule_RW1(ctx, ('src/DMS.cpp',))
+    rw.floor('rewrite chains in DMS.cpp', nchain, 1)
+    rw.floor('rewrite calls', ncalls, 40)
+    return _exc_rules(ctx, 'C10') + [tool.rule_TOOL(ctx), tool.rule_S1(ctx), _w1(ctx, 'C10', 8), rw]
 
 
 def _c18(ctx):
